@@ -332,8 +332,11 @@ def conv_checks(o, ali, cols, seqs, kind, score_gap, score_terminal):
     o.check(list(rg.sequences) == list(ali.sequences), "remove_gaps_columnwise", "remove_gaps() changed the sequences")
 
     if any(f is None for f in firsts):
-        # a sequence without any aligned symbol has no defined start/end
-        o.label("sequence_without_column")
+        # a sequence without any aligned symbol has no defined start/end: the terminal-gap
+        # based helpers are not defined for it
+        o.label("row_of_gaps_only")
+        if any(len(q) == 0 for q in seqs):
+            o.label("empty_sequence")
         return
 
     # terminal gaps
@@ -656,7 +659,7 @@ def st_fasta_opt():
     )
 
 
-def st_trace_case(tier, nmin, nmax, with_clip=True):
+def st_trace_case(tier, nmin, nmax, with_clip=True, allow_absent=False):
     max_runs = 8 if tier == "quick" else 20
     max_run = 4 if tier == "quick" else 9
 
@@ -676,8 +679,9 @@ def st_trace_case(tier, nmin, nmax, with_clip=True):
         present = 0
         for mk, _ in runs:
             present |= mk
-        if present != full:
-            # every sequence takes part in the alignment with at least one symbol
+        if present != full and not (allow_absent and draw(st.integers(0, 3)) == 0):
+            # every sequence takes part in the alignment with at least one symbol (unless a row
+            # of gaps only is allowed: an empty or completely unaligned sequence)
             at = draw(st.integers(0, len(runs)))
             runs.insert(at, [full & ~present, 1])
         # half of the traces cover every sequence completely (no clipped ends at all)
@@ -698,7 +702,7 @@ def st_trace_case(tier, nmin, nmax, with_clip=True):
 def st_conv(tier):
     @st.composite
     def gen(draw):
-        case = draw(st_trace_case(tier, 2, 5))
+        case = draw(st_trace_case(tier, 2, 5, allow_absent=True))
         case["score_gap"] = draw(st_gap())
         case["score_terminal"] = draw(st.booleans())
         return case
@@ -723,7 +727,7 @@ def st_cigar(tier):
 def st_fasta(tier):
     @st.composite
     def gen(draw):
-        case = draw(st_trace_case(tier, 2, 5))
+        case = draw(st_trace_case(tier, 2, 5, allow_absent=True))
         case["opt"] = draw(st_fasta_opt())
         return case
 
@@ -770,14 +774,25 @@ def st_produced(tier):
         if draw(st.booleans()):
             s1, s2 = s2, s1
         method = draw(st.sampled_from(["optimal", "optimal", "banded", "local_gapped"]))
+        local = draw(st.booleans())
+        if draw(st.sampled_from([False] * 14 + [True])):
+            # an empty sequence: the global alignment consists of gaps in that row only
+            s1, method, local, related = "", "optimal", False, False
+            if draw(st.booleans()):
+                s1, s2 = s2, s1
+        gap = draw(st.one_of(st_gap(), st.integers(-4, -1), st.tuples(st.integers(-6, -1), st.integers(-2, -1)).map(list)))
+        if (not s1 or not s2) and not isinstance(gap, int):
+            # align_optimal() itself fails with IndexError for an empty sequence and an affine
+            # penalty (pairwise.pyx, property C08); producing the alignment is not C11's subject
+            gap = gap[0]
         return {
             "kind": kind,
             "s1": s1,
             "s2": s2,
             "related": related,
             "method": method,
-            "gap": draw(st.one_of(st_gap(), st.integers(-4, -1), st.tuples(st.integers(-6, -1), st.integers(-2, -1)).map(list))),
-            "local": draw(st.booleans()),
+            "gap": gap,
+            "local": local,
             "terminal": draw(st.booleans()),
             "max_number": draw(st.sampled_from([1, 1, 3, 10])),
             "band": [draw(st.integers(0, 200)), draw(st.integers(0, 6))],
@@ -949,6 +964,8 @@ def run_produced(case):
     gap = _gap(case["gap"])
     method = case["method"]
     o.label(method, "related" if case["related"] else "unrelated")
+    if not s1 or not s2:
+        o.label("empty_input_sequence")
     if method == "optimal":
         o.label("local" if case["local"] else ("global" if case["terminal"] else "semiglobal"))
         alis = align.align_optimal(
@@ -985,11 +1002,16 @@ def run_produced(case):
         if k == 0:
             label_trace(o, cols, 2)
         t, i_ = m_gap_classes(cols, 2)
-        clipped = cols[0][0] > 0 or cols[0][1] > 0 or cols[-1][0] < len(s1) - 1 or cols[-1][1] < len(s2) - 1
+        f_ = m_firsts(cols, 2)
+        l_ = m_firsts(cols[::-1], 2)
+        clipped = any(f_[i] not in (None, 0) or l_[i] not in (None, len(seqs[i]) - 1) for i in range(2))
         nontrivial = nontrivial or (i_ and (t or clipped))
         conv_checks(o, ali, cols, seqs, kind, case["score_gap"], case["score_terminal"])
         ref_i, seg_i = (1, 0) if case["swap_ref"] else (0, 1)
-        cigar_checks(o, ali, cols, seqs, ref_i, seg_i, case["cigar_opt"])
+        if any(row[seg_i] != -1 for row in cols):
+            cigar_checks(o, ali, cols, seqs, ref_i, seg_i, case["cigar_opt"])
+        else:
+            o.label("segment_without_aligned_base")
         fasta_checks(o, ali, cols, seqs, kind, case["fasta_opt"])
     o.mark_nontrivial(nontrivial)
     return o
